@@ -201,4 +201,48 @@ example : (specRun 2 1 ([.retry 14, .retry 16, .done ()] : Script Unit)).2 = .er
 example : (specRun 0 1 ([.retry 15, .done ()] : Script Unit)).2 = .err (.kafka 15) := by simp [specRun]
 example : attempts 5 1 ([.retry 14, .retry 14, .retry 14, .retry 14, .retry 14, .retry 14, .done ()] : Script Unit) = 5 := by decide
 
+/-! ### every attempt function: failed exchanges, panics and all -/
+
+/-- any attempt - whatever it does: answers, failed exchanges, panics - with its invocations counted -/
+def counted {ς α} (step : M ς (Verdict α)) : M (ς × Nat) (Verdict α) := fun sn =>
+  match step sn.1 with
+  | (s', r) => ((s', sn.2 + 1), r)
+
+/-- **at most `max 1 N` attempts, for every attempt function**: however the attempts end (retryable or final answers,
+    failed exchanges, panics), the loop invokes the attempt at most `max 1 (N + 1 - attempt)` more times -/
+theorem C14_attempts_any_step {ς α} (N : Nat) (step : M ς (Verdict α)) : ∀ (fuel attempt : Nat) (s : ς) (n : Nat),
+    (retrying N (counted step) fuel attempt (s, n)).1.2 ≤ n + max 1 (N + 1 - attempt) := by
+  intro fuel
+  induction fuel with
+  | zero => intro attempt s n; simp [retrying, M.diverge]
+  | succ fuel ih =>
+    intro attempt s n
+    simp only [retrying, counted]
+    rcases hstep : step s with ⟨s', r⟩
+    cases r with
+    | ok v =>
+      cases v with
+      | done a => simp only []; omega
+      | fail e => simp only []; omega
+      | retry c =>
+        simp only []
+        split
+        · rename_i hlt
+          have := ih (attempt + 1) s' (n + 1)
+          omega
+        · simp only []; omega
+    | err e => simp only []; omega
+    | panic p => simp only []; omega
+    | diverge => simp only []; omega
+
+/-- a failed exchange (or any failure of the attempt itself) is final: no further attempt, whatever the limit -/
+theorem C14_failed_attempt_final {ς α} (N : Nat) (step : M ς (Verdict α)) (fuel attempt : Nat) (s s' : ς) (e : Err)
+    (h : step s = (s', .err e)) : retrying N step (fuel + 1) attempt s = (s', .err e) := by
+  simp [retrying, h]
+
+/-- … counted: exactly one invocation -/
+theorem C14_failed_attempt_once {ς α} (N : Nat) (step : M ς (Verdict α)) (fuel attempt : Nat) (s s' : ς) (n : Nat) (e : Err)
+    (h : step s = (s', .err e)) : retrying N (counted step) (fuel + 1) attempt (s, n) = ((s', n + 1), .err e) := by
+  simp [retrying, counted, h]
+
 end Kafka.Props.C14
